@@ -77,21 +77,23 @@ def run_lme(c, rnd, reuse="fresh"):
             warnings.simplefilter("ignore")
             model = model_factory("lme", with_random_slope_age=lme["slope"])
             C = np.array([[lme["c11"], lme["c12"]], [lme["c12"], lme["c22"]]], dtype=float)
-            model.load_parameters({"ages_mean": 0.0, "ages_std": 1.0, "fe_params": np.array([lme["b0"], lme["b1"]], dtype=float),
+            # ages are normalised by the model: (age - ages_mean) / ages_std are the specification's integer ages
+            AM, AS = 66.0, 2.0
+            model.load_parameters({"ages_mean": AM, "ages_std": AS, "fe_params": np.array([lme["b0"], lme["b1"]], dtype=float),
                                    "cov_re": np.linalg.inv(C) if lme["slope"] else np.array([[1.0 / lme["c11"]]]),
                                    "cov_re_unscaled_inv": C if lme["slope"] else np.array([[float(lme["c11"])]]),
                                    "noise_std": 1.0, "bse_fe": np.zeros(2), "bse_re": np.zeros(3 if lme["slope"] else 1)})
             model.features = ["Y"]
             model.dimension = 1
             model._is_initialized = True
-            rows = [{"ID": "q", "TIME": float(a), "Y": float(y)} for a, y in zip(lme["ages"], lme["ys"])]
+            rows = [{"ID": "q", "TIME": AM + AS * float(a), "Y": float(y)} for a, y in zip(lme["ages"], lme["ys"])]
             rnd.shuffle(rows)
             data = Data.from_dataframe(pd.DataFrame(rows))
             if reuse == "after_estimates":
-                other = pd.DataFrame({"ID": ["u", "u", "w", "w", "w"], "TIME": [-1.0, 2.0, 0.0, 1.0, 3.0], "Y": [1.0, -2.0, 0.5, 2.0, 2.5]})
+                other = pd.DataFrame({"ID": ["u", "u", "w", "w", "w"], "TIME": [AM - AS, AM + 2 * AS, AM, AM + AS, AM + 3 * AS], "Y": [1.0, -2.0, 0.5, 2.0, 2.5]})
                 ips0 = model.personalize(Data.from_dataframe(other), "lme_personalize")
-                model.estimate({"u": [0.0, 1.0], "w": [2.0]}, ips0)
-                model.estimate({"w": [-1.0, 5.0]}, ips0)
+                model.estimate({"u": [AM, AM + AS], "w": [AM + 2 * AS]}, ips0)
+                model.estimate({"w": [AM - AS, AM + 5 * AS]}, ips0)
             ips = model.personalize(data, "lme_personalize")
             ip = ips["q"]
             a = np.array(lme["ages"], dtype=float)
@@ -104,12 +106,12 @@ def run_lme(c, rnd, reuse="fresh"):
                 rec["re0"] = rat(ip["random_intercept"], n + lme["c11"])
                 rec["re1"] = {"nan": False, "num": 0, "den": 1, "close": True}
             ts = [-3.0, 0.0, 1.5, 4.0]
-            est = np.asarray(model.estimate({"q": ts}, ips)["q"], dtype=float)[:, 0]
+            est = np.asarray(model.estimate({"q": [AM + AS * t for t in ts]}, ips)["q"], dtype=float)[:, 0]
             b = np.array([float(ip["random_intercept"]), float(ip.get("random_slope_age", 0.0))])
             line = (lme["b0"] + b[0]) + (lme["b1"] + b[1]) * np.array(ts)
             rec["trajectory_is_line"] = bool(np.allclose(est, line, rtol=1e-5, atol=1e-5))
             # asked again: same trajectories, same conditional means
-            est2 = np.asarray(model.estimate({"q": ts}, ips)["q"], dtype=float)[:, 0]
+            est2 = np.asarray(model.estimate({"q": [AM + AS * t for t in ts]}, ips)["q"], dtype=float)[:, 0]
             ip2 = model.personalize(data, "lme_personalize")["q"]
             rec["repeat_same"] = bool(np.array_equal(est, est2)) and all(np.array_equal(np.asarray(ip[k_]), np.asarray(ip2[k_])) for k_ in ip)
     except Exception as e:  # noqa: BLE001
